@@ -56,7 +56,10 @@ def gen_case(rng: random.Random, tier: str):
         r = rng.random()
         if r < 0.75 and locs:
             p = rng.choice(locs)
-            if p["dims"]:
+            if p["dims"] and rng.random() < 0.3:
+                # the in-place idiom: fetch the member's list, change one element in place, assign the SAME object back
+                ops.append({"op": "set_array", "path": p["path"], "seed": rng.getrandbits(30), "inplace": rng.randrange(8)})
+            elif p["dims"]:
                 ops.append({"op": "set_array", "path": p["path"], "seed": rng.getrandbits(30)})
             else:
                 v = gen.gen_value(rng, defs, p)
@@ -378,6 +381,14 @@ def run_case(case, stats):
             try:
                 for name in op["path"][:-1]:
                     parent = getattr(parent, name)
+                if op.get("inplace") is not None:
+                    held = getattr(parent, op["path"][-1])
+                    if isinstance(held, list) and held and isinstance(val, list) and len(val) == len(held):
+                        j_ = op["inplace"] % len(held)
+                        held[j_] = val[j_]
+                        val = held  # the very object the member already holds, edited in place
+                        enc = ft.dumps(val)
+                        stats.count("probe.in_place_edit_then_write_back")
                 setattr(parent, op["path"][-1], val)
             except Exception as ex:  # noqa: BLE001
                 raise Violation("assign", "raised_" + type(ex).__name__,
